@@ -12,148 +12,15 @@ import (
 )
 
 func init() {
-	register("C04", "Positions are truthful (structural half): (R1) token coordinate coherence — with ghosts for the rune cursor, the line and the line start at the moment ReadToken has skipped ignored text, the abstract interpreter (Zone x Karr, token structs tracked field by field through returns and local copies) proves at every return of a successfully built token that Pos.Start equals the ghost cursor, Pos.Line the ghost line, Pos.Column = Start - lineStart + 1, Column >= 1 and Start <= End; (R2) after a line counter increment the last write among {rune cursor increments, lineStart := cursor} before the next loop head or return is the lineStart assignment, so the line start is the offset after the whole terminator; (R3) byte/rune cursor pairing — the rune cursor is only advanced by constants matched with the same byte advance, by one per decoded rune, by unit counters of single-byte characters or by a rune count, never by a byte length; (R4) ast.Position values are built only by the lexer, a position pointer stored in a syntax-tree node points into a token variable that is fresh for that node (not shared across loop iterations), and validator/formatter never write a Position; (R5) file, line and column of every located error come from one position (C20.R5).", runC04)
+	register("C04", "Positions are truthful (structural half): (R1) token coordinate coherence — with ghosts for the rune cursor, the line and the line start at the moment ReadToken has skipped ignored text, the abstract interpreter (Zone x Karr, token structs tracked field by field through returns and local copies) proves at every return of a successfully built token that Pos.Start equals the ghost cursor, Pos.Line the ghost line, Pos.Column = Start - lineStart + 1, Column >= 1 and Start <= End; (R2) after a line counter increment the last write among {rune cursor increments, lineStart := cursor} before the next loop head or return is the lineStart assignment, so the line start is the offset after the whole terminator; (R3) byte/rune cursor pairing — the rune cursor is only advanced by constants matched with the same byte advance, by one per decoded rune, by unit counters of single-byte characters or by a rune count, never by a byte length; (R4) ast.Position values are built only by the lexer, a position pointer stored in a syntax-tree node points into a token variable that is fresh for that node (not shared across loop iterations), and validator/formatter never write a Position; (R5) file, line and column of every located error come from one position (C20.R5). (R6) unit steps of both cursors step over a byte below 0x80, also per incoming edge where the width is a phi.", runC04)
 }
 
 func runC04(c *Ctx) {
 	p := c.P
 	r1 := c.Rule("R1", "token coordinates are the coordinates of the token's first character", 10)
-	makeVal := p.Func("lexer.(*Lexer).makeValueToken")
-	rt := p.Func("lexer.(*Lexer).ReadToken")
-	if makeVal == nil || rt == nil {
-		r1.AnchorLost("lexer.(*Lexer).makeValueToken / ReadToken")
+	obs := tokenCoordinateObligations(c, r1)
+	if obs == nil {
 		return
-	}
-	// functions of package lexer that never return a non-nil error (their token results are successful tokens)
-	errFree := map[*ssa.Function]bool{}
-	for changed := true; changed; {
-		changed = false
-		for _, fn := range p.FuncsIn("lexer") {
-			if errFree[fn] || fn.Signature.Results().Len() != 2 || len(fn.Blocks) == 0 {
-				continue
-			}
-			ok := true
-			for _, ret := range returnsOf(fn) {
-				v := returnValues(ret)[1]
-				if isNilConst(stripConv(v)) {
-					continue
-				}
-				if ex, isEx := v.(*ssa.Extract); isEx {
-					if call, isCall := ex.Tuple.(*ssa.Call); isCall && call.Call.StaticCallee() != nil && errFree[call.Call.StaticCallee()] {
-						continue
-					}
-				}
-				ok = false
-			}
-			if ok {
-				errFree[fn] = true
-				changed = true
-			}
-		}
-	}
-	isSuccess := func(v ssa.Value) bool {
-		v = stripConv(v)
-		if isNilConst(v) {
-			return true
-		}
-		// `t, err := s.makeToken(String)` with err stored in a local and returned later
-		v = unspill(v)
-		if ex, ok := v.(*ssa.Extract); ok {
-			if call, ok := ex.Tuple.(*ssa.Call); ok && call.Call.StaticCallee() != nil && errFree[call.Call.StaticCallee()] {
-				return true
-			}
-		}
-		return false
-	}
-	type tokOb struct {
-		pos  token.Pos
-		fn   string
-		what string
-		ok   bool
-		why  string
-	}
-	obs := map[string]*tokOb{}
-	add := func(pos token.Pos, fn, what string, ok bool, why string) {
-		k := p.PosCol(pos) + "|" + what
-		o := obs[k]
-		if o == nil {
-			o = &tokOb{pos, fn, what, true, ""}
-			obs[k] = o
-		}
-		if !ok && o.ok {
-			o.ok = false
-			o.why = why
-		}
-	}
-	ghostsSet := false
-	e, _, ok := lexerEngine(c, func(e *absEngine) {
-		e.structFields["Token"] = []string{"Pos.Start", "Pos.End", "Pos.Line", "Pos.Column"}
-		e.important = append(e.important, "g:tok:start", "g:tok:line", "g:tok:ls")
-		e.onReturn = func(e *absEngine, f *frame, st *nst, ret *ssa.Return) {
-			// ghosts are taken where ReadToken stores startRunes (right after skipping ignored text): see onStore below
-			if !f.rec || len(ret.Results) != 2 {
-				return
-			}
-			if n := namedOf(ret.Results[0].Type()); n == nil || n.Obj().Name() != "Token" {
-				return
-			}
-			vals := returnValues(ret)
-			if !isSuccess(vals[1]) {
-				return
-			}
-			if _, ok := st.z.lookup("g:tok:start"); !ok {
-				return
-			}
-			// only the functions ReadToken calls directly hand a finished token back (helpers such as makeToken
-			// return tokens that are still adjusted by their caller)
-			if strings.Count(f.ctx, "/") != 1 {
-				return
-			}
-			key := e.structKey(f, vals[0])
-			fld := func(n string) linexp { return lvar(key + "." + n) }
-			known := func(n string) bool {
-				_, a := st.z.lookup(key + "." + n)
-				return a || st.k.vars()[key+"."+n]
-			}
-			if !known("Pos.Start") || !known("Pos.Column") || !known("Pos.Line") {
-				add(ret.Pos(), e.p.FuncName(f.fn), "token coordinates tracked", false, "the fields of the returned token could not be followed to their construction")
-				return
-			}
-			eq := func(what string, d linexp) {
-				lo, hi := st.lb(d), st.ub(d)
-				okE := lo == 0 && hi == 0
-				if !okE && os.Getenv("GQLVET_DEBUG") != "" {
-					fmt.Fprintf(os.Stderr, "C04DBG %s ctx=%s key=%s %s [%s,%s]\n", e.p.PosCol(ret.Pos()), f.ctx, key, what, bstr(lo), bstr(hi))
-				}
-				add(ret.Pos(), e.p.FuncName(f.fn), what, okE, fmt.Sprintf("difference in [%s,%s]", bstr(lo), bstr(hi)))
-			}
-			eq("Pos.Start = rune offset of the token's first character", fld("Pos.Start").minus(lvar("g:tok:start")))
-			eq("Pos.Line = line of the token's first character", fld("Pos.Line").minus(lvar("g:tok:line")))
-			eq("Pos.Column = Start - lineStart + 1", fld("Pos.Column").minus(lvar("g:tok:start")).plus(lvar("g:tok:ls")).addK(-1))
-			colLo := st.lb(fld("Pos.Column"))
-			add(ret.Pos(), e.p.FuncName(f.fn), "Pos.Column >= 1", colLo >= 1, "column >= "+bstr(colLo))
-			se := st.ub(fld("Pos.Start").minus(fld("Pos.End")))
-			add(ret.Pos(), e.p.FuncName(f.fn), "Pos.Start <= Pos.End", se <= 0, "start-end <= "+bstr(se))
-		}
-		// ghosts: when ReadToken (root frame) stores startRunes
-		prevCall := e.onCall
-		_ = prevCall
-		e.onStoreCell = func(e *absEngine, f *frame, st *nst, cell string) {
-			if f.ctx == "R" && cell == "c:startRunes" {
-				st.assign("g:tok:start", lvar("c:endRunes"), nil)
-				st.assign("g:tok:line", lvar("c:line"), nil)
-				st.assign("g:tok:ls", lvar("c:lineStartRunes"), nil)
-				ghostsSet = true
-			}
-		}
-	})
-	if !ok {
-		r1.AnchorLost("lexer engine")
-		return
-	}
-	_ = e
-	if !ghostsSet {
-		r1.AnchorLost("the store of startRunes in ReadToken (where a token begins)")
 	}
 	var keys []string
 	for k := range obs {
@@ -657,4 +524,151 @@ func asciiSpan(x *ssa.BinOp) bool {
 		}
 	}
 	return true
+}
+
+type tokOb struct {
+	pos  token.Pos
+	fn   string
+	what string
+	ok   bool
+	why  string
+}
+
+// tokenCoordinateObligations runs the lexer engine with ghosts for the place where a token begins and records, at every
+// return of a finished, successfully built token, the coordinate obligations of C04.R1 (and C20.R6).
+func tokenCoordinateObligations(c *Ctx, r1 *RuleResult) map[string]*tokOb {
+	p := c.P
+	makeVal := p.Func("lexer.(*Lexer).makeValueToken")
+	rt := p.Func("lexer.(*Lexer).ReadToken")
+	if makeVal == nil || rt == nil {
+		r1.AnchorLost("lexer.(*Lexer).makeValueToken / ReadToken")
+		return nil
+	}
+	// functions of package lexer that never return a non-nil error (their token results are successful tokens)
+	errFree := map[*ssa.Function]bool{}
+	for changed := true; changed; {
+		changed = false
+		for _, fn := range p.FuncsIn("lexer") {
+			if errFree[fn] || fn.Signature.Results().Len() != 2 || len(fn.Blocks) == 0 {
+				continue
+			}
+			ok := true
+			for _, ret := range returnsOf(fn) {
+				v := returnValues(ret)[1]
+				if isNilConst(stripConv(v)) {
+					continue
+				}
+				if ex, isEx := v.(*ssa.Extract); isEx {
+					if call, isCall := ex.Tuple.(*ssa.Call); isCall && call.Call.StaticCallee() != nil && errFree[call.Call.StaticCallee()] {
+						continue
+					}
+				}
+				ok = false
+			}
+			if ok {
+				errFree[fn] = true
+				changed = true
+			}
+		}
+	}
+	isSuccess := func(v ssa.Value) bool {
+		v = stripConv(v)
+		if isNilConst(v) {
+			return true
+		}
+		// `t, err := s.makeToken(String)` with err stored in a local and returned later
+		v = unspill(v)
+		if ex, ok := v.(*ssa.Extract); ok {
+			if call, ok := ex.Tuple.(*ssa.Call); ok && call.Call.StaticCallee() != nil && errFree[call.Call.StaticCallee()] {
+				return true
+			}
+		}
+		return false
+	}
+	obs := map[string]*tokOb{}
+	add := func(pos token.Pos, fn, what string, ok bool, why string) {
+		k := p.PosCol(pos) + "|" + what
+		o := obs[k]
+		if o == nil {
+			o = &tokOb{pos, fn, what, true, ""}
+			obs[k] = o
+		}
+		if !ok && o.ok {
+			o.ok = false
+			o.why = why
+		}
+	}
+	ghostsSet := false
+	e, _, ok := lexerEngine(c, func(e *absEngine) {
+		e.structFields["Token"] = []string{"Pos.Start", "Pos.End", "Pos.Line", "Pos.Column"}
+		e.important = append(e.important, "g:tok:start", "g:tok:line", "g:tok:ls")
+		e.onReturn = func(e *absEngine, f *frame, st *nst, ret *ssa.Return) {
+			// ghosts are taken where ReadToken stores startRunes (right after skipping ignored text): see onStore below
+			if !f.rec || len(ret.Results) != 2 {
+				return
+			}
+			if n := namedOf(ret.Results[0].Type()); n == nil || n.Obj().Name() != "Token" {
+				return
+			}
+			vals := returnValues(ret)
+			if !isSuccess(vals[1]) {
+				return
+			}
+			if _, ok := st.z.lookup("g:tok:start"); !ok {
+				return
+			}
+			// only the functions ReadToken calls directly hand a finished token back (helpers such as makeToken
+			// return tokens that are still adjusted by their caller)
+			if strings.Count(f.ctx, "/") != 1 {
+				return
+			}
+			key := e.structKey(f, vals[0])
+			fld := func(n string) linexp { return lvar(key + "." + n) }
+			known := func(n string) bool {
+				_, a := st.z.lookup(key + "." + n)
+				return a || st.k.vars()[key+"."+n]
+			}
+			if !known("Pos.Start") || !known("Pos.Column") || !known("Pos.Line") {
+				add(ret.Pos(), e.p.FuncName(f.fn), "token coordinates tracked", false, "the fields of the returned token could not be followed to their construction")
+				return
+			}
+			eq := func(what string, d linexp) {
+				lo, hi := st.lb(d), st.ub(d)
+				okE := lo == 0 && hi == 0
+				if !okE && os.Getenv("GQLVET_DEBUG") != "" {
+					fmt.Fprintf(os.Stderr, "C04DBG %s ctx=%s key=%s %s [%s,%s]\n", e.p.PosCol(ret.Pos()), f.ctx, key, what, bstr(lo), bstr(hi))
+				}
+				add(ret.Pos(), e.p.FuncName(f.fn), what, okE, fmt.Sprintf("difference in [%s,%s]", bstr(lo), bstr(hi)))
+			}
+			eq("Pos.Start = rune offset of the token's first character", fld("Pos.Start").minus(lvar("g:tok:start")))
+			eq("Pos.Line = line of the token's first character", fld("Pos.Line").minus(lvar("g:tok:line")))
+			eq("Pos.Column = Start - lineStart + 1", fld("Pos.Column").minus(lvar("g:tok:start")).plus(lvar("g:tok:ls")).addK(-1))
+			colLo := st.lb(fld("Pos.Column"))
+			add(ret.Pos(), e.p.FuncName(f.fn), "Pos.Column >= 1", colLo >= 1, "column >= "+bstr(colLo))
+			lnLo := st.lb(fld("Pos.Line"))
+			add(ret.Pos(), e.p.FuncName(f.fn), "Pos.Line >= 1", lnLo >= 1, "line >= "+bstr(lnLo))
+			se := st.ub(fld("Pos.Start").minus(fld("Pos.End")))
+			add(ret.Pos(), e.p.FuncName(f.fn), "Pos.Start <= Pos.End", se <= 0, "start-end <= "+bstr(se))
+		}
+		// ghosts: when ReadToken (root frame) stores startRunes
+		prevCall := e.onCall
+		_ = prevCall
+		e.onStoreCell = func(e *absEngine, f *frame, st *nst, cell string) {
+			if f.ctx == "R" && cell == "c:startRunes" {
+				st.assign("g:tok:start", lvar("c:endRunes"), nil)
+				st.assign("g:tok:line", lvar("c:line"), nil)
+				st.assign("g:tok:ls", lvar("c:lineStartRunes"), nil)
+				ghostsSet = true
+			}
+		}
+	})
+	if !ok {
+		r1.AnchorLost("lexer engine")
+		return nil
+	}
+	_ = e
+	if !ghostsSet {
+		r1.AnchorLost("the store of startRunes in ReadToken (where a token begins)")
+	}
+	return obs
 }
